@@ -48,10 +48,10 @@ Notation SampOK := (SampOK C n).
 Notation CovAll := (CovAll C).
 Notation LitsC := (LitsC C).
 
-(* the literal list of a sample: only leaves over its variables, and every literal that is valid on
-   its own *)
+(* the literal list of a sample: only LIVE leaves (Proofs/Live.v) over its variables, and every
+   literal that is valid on its own *)
 Definition LitsInv (r : nat) (W : list Z) (S : sample) : Prop :=
-  (forall l, In l (s_lits S) -> In l (lits_of C) /\ In (Z.abs l) W) /\
+  (forall l, In l (s_lits S) -> Live.LiveLit C l /\ In (Z.abs l) W) /\
   (forall l, In (Z.abs l) W -> valid r [l] -> In l (s_lits S)).
 
 Lemma LitsInv_ext r W W' S : (forall v, In v W <-> In v W') -> LitsInv r W S -> LitsInv r W' S.
@@ -65,6 +65,7 @@ Qed.
 Section AndFit.
 Variables (p : nat) (cs : list nat).
 Hypothesis Hp : (p < length C)%nat.
+Hypothesis HRp : Live.Reach C p.
 Hypothesis Ep : nth p C FalseN = And cs.
 Hypothesis Hpos : 0 < cnt C p.
 
@@ -197,7 +198,7 @@ Proof.
       destruct HY as [Y [EY HY]]. injection EY as _ <-. exact HY.
     - intros HX. exists (cval vals X, X). split; [reflexivity|]. apply sort_key_in. apply in_map_iff. now exists X. }
   destruct HLl as [HLs HLc]. destruct HRl as [HRs HRc].
-  destruct (fold_sorted C n vals HQ p (WL ++ WR) Hp HWW ordered Z0 Z1 Hpos) as [F1 [F2 [F2' [F3 F4]]]].
+  destruct (fold_sorted C n vals HQ p (WL ++ WR) Hp HRp HWW ordered Z0 Z1 Hpos) as [F1 [F2 [F2' [F3 F4]]]].
   { intros X HX. apply Hord in HX. destruct (fit_candidates_sound Z0 X HX) as [lp [rp [-> [Hlp Hrp]]]]. split.
     - intros l Hl. apply in_app_iff in Hl. destruct Hl as [Hl|Hl]; [apply HLs; now apply Hlp|apply HRs; now apply Hrp].
     - intros l Hl. apply in_app_iff in Hl. apply in_app_iff.
@@ -277,7 +278,7 @@ Proof.
     + apply F3. apply (s_covers_spec C n p (WL ++ WR) Z0 (oL ++ oR) Z1); [|exact Hcv].
       intros l Hl. apply HXI in Hl.
       assert (Hlit : In l (lits_of C)).
-      { destruct (Hsplit l Hl) as [H|H]; [apply HLs; now apply HILl|apply HRs; now apply HIRl]. }
+      { apply live_lit_of. destruct (Hsplit l Hl) as [H|H]; [apply HLs; now apply HILl|apply HRs; now apply HIRl]. }
       split; [exact (lits_of_nonzero C n HQ l Hlit)|exact (lits_inr C n HQ l Hlit)].
     + apply F4; [now apply Hord|]. apply (valid_mono C n HQ p I); [exact Hp|exact HXI|exact Hv].
   - intros Hne. destruct (s_iter L) as [|c0 l0] eqn:E; [congruence|].
